@@ -122,7 +122,10 @@ impl Summary {
         if self.samples.len() < 4000 { self.samples.push(s); }
     }
     pub fn violation(&mut self, v: String) {
-        if self.violations.len() < 50 { self.violations.push(v); }
+        // at most 4 per class (the text before " bk=" of the "what" field), so that one class cannot crowd out another
+        let class = v.split("\"what\":\"").nth(1).map(|r| r.split(" bk=").next().unwrap_or("").chars().take(80).collect::<String>()).unwrap_or_default();
+        let n = self.violations.iter().filter(|o| o.split("\"what\":\"").nth(1).map_or(false, |r| r.starts_with(&class))).count();
+        if n < 4 && self.violations.len() < 200 { self.violations.push(v); }
     }
     pub fn print(&self) {
         let mut o = String::from("{");
